@@ -71,12 +71,22 @@ void
 f_named_livings ()
 {
   int i;
-  int nob, apply_valid_hide, hide_is_valid = 0;
+  int nob, hide_is_valid = 0, asked = 0;
   object_t *ob, **obtab;
   array_t *vec;
 
   nob = 0;
-  apply_valid_hide = 1;
+
+  /* valid_hide() is LPC code in the master: it is asked before the hash chains are
+   * walked (it can destruct objects or give them another living name) */
+  for (i = 0; i < CONFIG_INT (__LIVING_HASH_TABLE_SIZE__) && !asked; i++)
+    for (ob = hashed_living[i]; ob; ob = ob->next_hashed_living)
+      if ((ob->flags & O_HIDDEN) && (ob->flags & O_ENABLE_COMMANDS))
+        {
+          hide_is_valid = valid_hide (current_object);
+          asked = 1;
+          break;
+        }
 
   obtab = CALLOCATE (CONFIG_INT (__MAX_ARRAY_SIZE__), object_t *, TAG_TEMPORARY, "named_livings");
 
@@ -88,11 +98,6 @@ f_named_livings ()
             continue;
           if (ob->flags & O_HIDDEN)
             {
-              if (apply_valid_hide)
-                {
-                  apply_valid_hide = 0;
-                  hide_is_valid = valid_hide (current_object);
-                }
               if (hide_is_valid)
                 continue;
             }
